@@ -139,7 +139,7 @@ def check(rep, an, tier):
     # unknown objective raises
     d = {n: AXES[n][0][0] for n in AXES}
     res = run(an, dict(d, objective="bogus"))
-    rep.check("R-DISPATCH", "unknown adaptive_objective raises", bool(res.events("raise")) and not F.final_problems(res),
+    rep.check("R-DISPATCH", "unknown adaptive_objective raises", F.raises(res),
               where=res.fn.loc(), construct="adaptive_objective='bogus'", entry=entry, config="objective=bogus")
     # estimator wrapper: same-named options
     fields = estimator_fields(K="vec", baseline="vec")
